@@ -27,7 +27,7 @@ func init() {
 
 func Main(prop, tier string) int {
 	r := vk.New("C12", tier)
-	r.Rule = "(a) templates `printf '%s\\0' <placeholders>` over {} {q} {+} {n} {+n} {N} {-N} {A..B} {sN} {+N} {q:N} {fzf:query} {fzf:prompt} \\{} with item/query texts drawn from every shell metacharacter, quotes, backslashes, newlines, tabs, globs, $(), backticks, leading dashes, multi-byte text and command-injection payloads; 1-4 selected items; AWK and literal delimiters; $SHELL / --with-shell combinations; the expansion is handed to the real /bin/sh and bash and the NUL-separated argv is compared with the expected words; a canary file must never appear. (b) tmux re-launch: fzf started with TMUX set, a fake `tmux` first on PATH that runs the generated script with sh, and argv[0] pointing at a recorder: the recorded arguments and exported variables must be byte-identical to what was given. distinct = (set of placeholder forms, shell, payload classes) signatures"
+	r.Rule = "(a) templates `printf '%s\\0' <placeholders>` over {} {q} {+} {n} {+n} {N} {-N} {A..B} {sN} {+N} {q:N} {fzf:query} {fzf:prompt} \\{} with item/query texts drawn from every shell metacharacter, quotes, backslashes, newlines, tabs, globs, $(), backticks, leading dashes, multi-byte text and command-injection payloads; 1-4 selected items; AWK and literal delimiters; $SHELL / --with-shell combinations; the expansion is handed to the real /bin/sh and bash and the NUL-separated argv is compared with the expected words; a canary file must never appear. (b) tmux re-launch: fzf started with TMUX set, a fake `tmux` first on PATH that runs the generated script with sh, and argv[0] pointing at a recorder: the recorded arguments and exported variables must be byte-identical to what was given (values with every metacharacter, empty values and harmless-looking values as words of their own). (c) real sessions: `--bind load:pos(K)+become(printf ... {n} {})` / `select-all+become(... {+n})` under --header-lines / --with-nth / --tail: the ordinal and the text handed to the shell must be those of the record at that position. distinct = (set of placeholder forms, shell, payload classes) signatures"
 	r.Assumptions = []string{"texts contain no NUL byte", "{r} (raw) and {f} (file) forms are unquoted by definition and excluded from the quoting claim", "field placeholders trim surrounding whitespace unless the s flag is given and drop the trailing delimiter (documented)", "fish is not installed: the fish quoting dialect is only checked for not being selected when --with-shell names another shell"}
 	if _, err := fzfrun.Bin(); err != nil {
 		r.Inconclusive(err.Error())
@@ -36,6 +36,8 @@ func Main(prop, tier string) int {
 	}
 	r.Fanout("c12", vk.NumWorkers(), 30*time.Minute)
 	r.Fanout("c12tmux", vk.NumWorkers(), 30*time.Minute)
+	r.Fanout("c12proc", vk.NumWorkers(), 30*time.Minute)
+	r.Floor("ordinal_sessions", 10)
 	r.Floor("shell_runs", 1000)
 	r.Floor("words_compared", 3000)
 	r.Floor("tmux_relaunches", 10)
@@ -110,6 +112,23 @@ func Sel(fs []string, a, b int, single bool) string {
 	return sb.String()
 }
 
+// listWord: a comma list of expressions selects the concatenation of the selected fields (each with
+// its trailing delimiter); only the very last delimiter is dropped.
+func listWord(s, delim string, preserve bool, sels ...[3]int) string {
+	fs := Fields(s, delim)
+	out := ""
+	for _, x := range sels {
+		out += Sel(fs, x[0], x[1], x[2] == 1)
+	}
+	if delim != "" {
+		out = strings.TrimSuffix(out, delim)
+	}
+	if !preserve {
+		out = strings.TrimSpace(out)
+	}
+	return out
+}
+
 func fieldWord(s, delim string, a, b int, single, preserve bool) string {
 	out := Sel(Fields(s, delim), a, b, single)
 	if delim != "" {
@@ -175,11 +194,37 @@ var phs = []ph{
 		}
 		return o
 	}},
+	{"{1,3}", func(c string, ci int, s []string, si []int, q, p, d string) []string {
+		return []string{listWord(c, d, false, [3]int{1, 1, 1}, [3]int{3, 3, 1})}
+	}},
+	{"{3,1}", func(c string, ci int, s []string, si []int, q, p, d string) []string {
+		return []string{listWord(c, d, false, [3]int{3, 3, 1}, [3]int{1, 1, 1})}
+	}},
+	{"{1,3..}", func(c string, ci int, s []string, si []int, q, p, d string) []string {
+		return []string{listWord(c, d, false, [3]int{1, 1, 1}, [3]int{3, 0, 0})}
+	}},
+	{"{+s1,-1}", func(c string, ci int, s []string, si []int, q, p, d string) []string {
+		var o []string
+		for _, x := range s {
+			o = append(o, listWord(x, d, true, [3]int{1, 1, 1}, [3]int{-1, -1, 1}))
+		}
+		return o
+	}},
 	{"{q:1}", func(c string, ci int, s []string, si []int, q, p, d string) []string {
 		return []string{fieldWord(q, "", 1, 1, true, false)}
 	}},
 	{"\\{}", func(c string, ci int, s []string, si []int, q, p, d string) []string { return []string{"{}"} }},
 	{"\\{q}", func(c string, ci int, s []string, si []int, q, p, d string) []string { return []string{"{q}"} }},
+	{"\\{n}", func(c string, ci int, s []string, si []int, q, p, d string) []string { return []string{"{n}"} }},
+	{"\\{+n}", func(c string, ci int, s []string, si []int, q, p, d string) []string { return []string{"{+n}"} }},
+	{"\\{+}", func(c string, ci int, s []string, si []int, q, p, d string) []string { return []string{"{+}"} }},
+	{"\\{1}", func(c string, ci int, s []string, si []int, q, p, d string) []string { return []string{"{1}"} }},
+	{"\\{-1}", func(c string, ci int, s []string, si []int, q, p, d string) []string { return []string{"{-1}"} }},
+	{"\\{q:1}", func(c string, ci int, s []string, si []int, q, p, d string) []string { return []string{"{q:1}"} }},
+	{"\\{fzf:query}", func(c string, ci int, s []string, si []int, q, p, d string) []string { return []string{"{fzf:query}"} }},
+	{"\\{+s2..}", func(c string, ci int, s []string, si []int, q, p, d string) []string { return []string{"{+s2..}"} }},
+	{"\\{nf}", func(c string, ci int, s []string, si []int, q, p, d string) []string { return []string{"{nf}"} }},
+	{"\\{+nf}", func(c string, ci int, s []string, si []int, q, p, d string) []string { return []string{"{+nf}"} }},
 }
 
 func worker(r *vk.Run, w, n int, args []string) {
@@ -357,7 +402,7 @@ func workerTmux(r *vk.Run, w, n int, args []string) {
 		na := 1 + rng.Intn(4)
 		for k := 0; k < na; k++ {
 			t, _ := genText(rng)
-			switch rng.Intn(5) {
+			switch rng.Intn(7) {
 			case 0:
 				given = append(given, "--prompt="+t)
 			case 1:
@@ -366,8 +411,13 @@ func workerTmux(r *vk.Run, w, n int, args []string) {
 				given = append(given, "--query="+t)
 			case 3:
 				given = append(given, "--preview", t)
-			default:
+			case 4:
 				given = append(given, "--border-label="+t)
+			case 5:
+				// empty and harmless-looking values as words of their own
+				given = append(given, []string{"--query", "--prompt", "--header", "--ghost"}[rng.Intn(4)], []string{"", "", "a", "a-b_c.d/e", ">", "*"}[rng.Intn(6)])
+			default:
+				given = append(given, []string{"--pointer", "--marker"}[rng.Intn(2)], []string{"", ">", "*", "=>"}[rng.Intn(4)])
 			}
 		}
 		tm := []string{"--tmux", "--tmux=center,50%", "--tmux=bottom,30%,border-native"}[rng.Intn(3)]
